@@ -293,8 +293,11 @@ def _write_hash_list(hash_list: MHLHashList, file_path: str):
 
 
 def _write_xml_element_to_file(file, xml_element, indent: str):
-    xml_string = etree.tostring(xml_element, pretty_print=True, encoding="unicode")
-    _write_xml_string_to_file(file, xml_string, indent)
+    # indent the structure of the element, not the lines of the serialised string: the text of an element
+    # (e.g. a file or folder name that contains a line feed) has to be written exactly as it is
+    etree.indent(xml_element, space="  ", level=len(indent) // 2)
+    xml_string = etree.tostring(xml_element, encoding="unicode")
+    file.write((indent + xml_string + "\n").encode("utf-8"))
 
 
 def _write_xml_string_to_file(file, xml_string: str, indent: str):
